@@ -685,6 +685,18 @@ func runC28Fee(ctx *ev.Ctx, f *c28Fee) {
 		pf = hexBig(*f.ParentFee)
 		parent.BaseFee = new(big.Int).Set(pf)
 	}
+	// fork-height determination on bare headers (no base fee) around the activation heights
+	for _, n := range []uint64{f.ParentNum, f.ParentNum + 1} {
+		probe := &eth.Header{Number: new(big.Int).SetUint64(n)}
+		if got, want := eth.VerifIsLondon(probe), n >= fork; got != want {
+			ctx.Failf("isLondon(number %d, network %d) = %v, EIP-3554/1559 activation height %d", n, f.Net, got, fork)
+		}
+		ag := n - fork + mainnetArrowGlacier // same offset from the Arrow Glacier height
+		probe = &eth.Header{Number: new(big.Int).SetUint64(ag)}
+		if got, want := eth.VerifIsArrowGlacier(probe), f.Net == 1 && ag >= mainnetArrowGlacier; got != want {
+			ctx.Failf("isArrowGlacier(number %d, network %d) = %v, EIP-4345 activation height %d (main net only)", ag, f.Net, got, mainnetArrowGlacier)
+		}
+	}
 	if got := eth.VerifIsLondon(parent); got != parentLondon {
 		ctx.Failf("isLondon(parent number %d, network %d) = %v, fork height per EIP-3554 activation %d", f.ParentNum, f.Net, got, fork)
 	}
